@@ -6,7 +6,7 @@ import os, subprocess, json
 from lib import vf
 
 MANIFEST = {
- 'text': "Coq theorems: the final sort.Stable by position is a function of the per-position sub-sequences only (uniqueness of stable sorting), hence erases every reordering caused by map iteration unless two diagnostics share a position; a site that ranges over a map with pairwise different positions is deterministic after the sort; a site that visits sorted keys is deterministic even at one shared position (every `for ... range <map>` loop of the source is re-listed with go/types on every run and is one of 70 loops classified by hand (keys sorted first / order-independent computation / one report per entry at its own positions / element type of a merged object); the places of the source that read the clock, the environment, the process, the machine or a random source are re-listed from the .go files on every run and each is a known one (elapsed-time log, default working directory, pool size); instances: format() placeholders, missing required inputs of actions and reusable workflows, visiting jobs / needs roots / registered runner labels in source order — the code after six fix: commits), while the unsorted same-position shape is refuted by a witness; LintFiles assembles per-file results by slot, independent of goroutine completion order. All for every map iteration order (Permutation) and every completion order. Tie: the model predicts the order of same-position diagnostics for generated cases at the modelled sites (vm_compute vs the implementation). Partial: rules/sites not modelled and real goroutine scheduling are covered by the repetition oracle only (every corpus file, project and generated site workflow linted R times on fresh Linters under GOMAXPROCS 1/2/4/16, results byte-compared).",
+ 'text': "Coq theorems: the final sort.Stable by position is a function of the per-position sub-sequences only (uniqueness of stable sorting), hence erases every reordering caused by map iteration unless two diagnostics share a position; a site that ranges over a map with pairwise different positions is deterministic after the sort; a site that visits sorted keys is deterministic even at one shared position (every `for ... range <map>` loop of the source is re-listed with go/types on every run and is one of 70 loops classified by hand (keys sorted first / order-independent computation / one report per entry at its own positions / element type of a merged object); the places of the source that read the clock, the environment, the process, the machine or a random source are re-listed from the .go files on every run and each is a known one (elapsed-time log, default working directory, pool size); instances: format() placeholders, missing required inputs of actions and reusable workflows, visiting jobs / needs roots / registered runner labels in source order — the code after six fix: commits), while the unsorted same-position shape is refuted by a witness; LintFiles assembles per-file results by slot, independent of goroutine completion order. All for every map iteration order (Permutation) and every completion order. Tie: the model predicts the order of same-position diagnostics for generated cases at the modelled sites (vm_compute vs the implementation). Partial: rules/sites not modelled and real goroutine scheduling are covered by the repetition oracle only (every corpus file, project and generated site workflow linted R times on fresh Linters under GOMAXPROCS 1/2/4/16, results byte-compared). A run in which several files end in a fatal error returns the error of the first failing file in argument order whatever the order in which the goroutines finish (coq/Out/FatalOrder.v: slots written in any permutation are the per-file results; the errgroup-first-error behaviour before the repair ec824d0 is refuted), tied by runs with several unreadable files.",
  'note': "Trusted: Coq kernel; Go's sort.Stable is a stable sort (then it computes ssort by ssort_unique); models of the emission sites are hand-written and correspondence-checked on generated cases; Go's map iteration is modelled as an arbitrary permutation. Not proved: determinism of unmodelled rules (repetition sampling only), Go scheduler behaviour.",
  'technique': "machine-checked proof in Coq (uniqueness of stable sorting, permutation invariance of map-iteration sites) + vm_compute correspondence + repetition oracle",
 }
